@@ -491,7 +491,13 @@ func (mw *TinkEncryptionPartStoreMiddleware) PutPart(ctx context.Context, tx dat
 
 	}()
 
-	return mw.innerPartStore.PutPart(ctx, tx, partId, pipeReader)
+	err = mw.innerPartStore.PutPart(ctx, tx, partId, pipeReader)
+	if err != nil {
+		// The inner store may fail without draining the pipe; closing the read
+		// side unblocks the encrypting goroutine instead of leaking it.
+		_ = pipeReader.CloseWithError(err)
+	}
+	return err
 }
 
 func (mw *TinkEncryptionPartStoreMiddleware) Capabilities() partstore.Capabilities {
